@@ -109,7 +109,7 @@ def grep_forbidden():
     return hits
 
 
-def lean_side(prop, thorough=False, driver=None):
+def lean_side(prop, thorough=False, driver=None, extra_targets=()):
     """Regenerate tables, build, audit the theorems of `prop`.
 
     Returns a dict with `obligations` (names), `discharged` (names), `failures`
@@ -134,7 +134,8 @@ def lean_side(prop, thorough=False, driver=None):
         thms = entry.get('theorems', [])
         mods = entry.get('modules', [])
         res['obligations'] = list(thms)
-        rc, out = _lake(['build', 'DD', 'ddvdrv'] + ([driver] if driver else []) + mods)
+        rc, out = _lake(['build', 'DD', 'ddvdrv'] + ([driver] if driver else [])
+                        + [t for t in extra_targets if t != driver] + mods)
         if rc != 0:
             res['ok'] = False
             res['failures'].append('lake build failed:\n' + out[-4000:])
